@@ -242,6 +242,9 @@ theorem exec_wf (rc : Bool) {db db' : DB} (s : Stmt) (hs : s.colSafe = true) (h 
       have hi : i ∈ tb.idxs.filter (·.name != name) := hi
       exact htb i (List.mem_filter.mp hi).1
   | commentOn t c text => simp [Stmt.colSafe] at hs
+  | alterType t c typ => simp [Stmt.colSafe] at hs
+  | setDefault t c d => simp [Stmt.colSafe] at hs
+  | dropNotNull t c => simp [Stmt.colSafe] at hs
 
 theorem execAll_wf (rc : Bool) (ss : List Stmt) : ∀ (db db' : DB), ss.all Stmt.colSafe = true → db.WF →
     execAll rc db ss = some db' → db'.WF := by
